@@ -152,7 +152,7 @@ pub fn exec(ctx: &mut Ctx, line: &str, rec: &mut Recorder) {
 /// The five numeric constants the models hard-code, read from the source the harness was built from:
 /// UDP loop bound, QOS_MAX_RECEIVE_MSGS, id tries, caller channel slots (buffer + 1), outbound slots.
 fn source_consts() -> Option<String> {
-    let root = std::env::var("HICKORY_REPO").unwrap_or_else(|_| "/repo".into());
+    let root = std::env::var("HK_REPO").or_else(|_| std::env::var("HICKORY_REPO")).unwrap_or_else(|_| "/repo".into());
     let rd = |p: &str| std::fs::read_to_string(format!("{root}/{p}")).ok();
     fn num_after(s: &str, anchor: &str, then: &str) -> Option<u64> {
         let i = s.find(anchor)?;
@@ -206,11 +206,16 @@ fn exec_udp(line: &str, t: &[&str], rec: &mut Recorder) {
         rec.stat("skipped.unparsable-case");
         return;
     };
+    // the request, built the way the case says, and the case as it really is on the wire
+    let Some((req, c)) = udp::prepare(&c) else {
+        rec.stat("skipped.udp-case-not-buildable");
+        return;
+    };
     if !script_consistent(&c) {
         rec.stat("skipped.udp-descriptor-differs-from-bytes");
         return;
     }
-    let r = catch(|| udp::run_case(&c));
+    let r = catch(|| udp::run_case(&c, req));
     let run = match r {
         Err(p) => {
             let idx = rec.case(line.to_string(), format!("panic {p}"));
@@ -282,6 +287,7 @@ fn exec_udp(line: &str, t: &[&str], rec: &mut Recorder) {
     rec.stat(&format!("udp.outcome.{}", run.outcome.split(' ').next().unwrap()));
     rec.stat(&format!("udp.transmissions.{}", run.consumed.len()));
     rec.stat(&format!("udp.case_randomization.{}", b(c.case_rand)));
+    rec.stat(&format!("udp.request-built-by.{}.questions-{}.case-rand-{}", match c.ctor { 'n' => "DnsRequest::new", 'o' => "new+with_original_query", 'm' => "From<Message>+options_mut", _ => "DnsRequest::from_query" }, c.qs.len().min(3), b(c.case_rand)));
     let total: usize = run.consumed.iter().sum();
     rec.stat(&format!("udp.consumed-total.{}", total.min(9)));
     // ---- oracle (script + implementation result only)
@@ -292,6 +298,9 @@ fn exec_udp(line: &str, t: &[&str], rec: &mut Recorder) {
         rec.fail(idx, "query completed with a response that is none of the consumed datagrams", "");
     }
     if let Some((t, j)) = run.accepted {
+        if j >= 3 {
+            rec.fail(idx, format!("query completed by datagram {t}.{j}: the {}th to arrive on that transmission's socket (at most three may be examined)", j + 1), "");
+        }
         let e = &c.scripts[t][j];
         if let Some(why) = udp::mismatch(&c, e) {
             rec.fail(idx, format!("accepted datagram {t}.{j}: {why}"), "");
@@ -299,7 +308,7 @@ fn exec_udp(line: &str, t: &[&str], rec: &mut Recorder) {
     }
     for (t, n) in run.consumed.iter().enumerate() {
         if *n > 3 {
-            rec.fail(idx, format!("transmission {t} examined {n} > 3 datagrams"), "");
+            rec.fail(idx, format!("more than 3 datagrams examined in one transmission: transmission {t} took {n} from its socket"), "");
         }
     }
     if !run.all_sent_to_server {
@@ -500,9 +509,12 @@ fn gen_event(r: &mut Rng, c: &UdpCase, kind: &str, delay: u64) -> Ev {
 fn gen_udp(r: &mut Rng) -> UdpCase {
     let nq = match r.below(20) {
         0 => 0,
-        1 | 2 => 2,
+        1 | 2 | 3 => 2,
+        4 => 3,
         _ => 1,
     };
+    // every public way to obtain a DnsRequest (from_query takes exactly one question)
+    let ctor = if nq == 1 { *r.pick(&['n', 'o', 'm', 'f', 'f']) } else { *r.pick(&['n', 'o', 'm']) };
     let interval = *r.pick(&[400u64, 1000, 2600]);
     let (retry_interval, floor) = match r.below(3) {
         0 => (interval, *r.pick(&[0u64, 100, interval])),
@@ -517,6 +529,7 @@ fn gen_udp(r: &mut Rng) -> UdpCase {
         server: SocketAddr::new(gen_ip(r), if r.chance(2, 3) { 53 } else { r.range(1, 65535) as u16 }),
         id: r.next() as u16,
         case_rand: r.chance(1, 2),
+        ctor,
         qs: (0..nq).map(|_| gen_q(r)).collect(),
         scripts: vec![],
     };
@@ -539,12 +552,15 @@ fn gen_udp(r: &mut Rng) -> UdpCase {
         let hostile = r.chance(1, 3);
         // "k skipped-kind forgeries, then the genuine reply": k = 3 is the loop bound
         let prefix: Option<usize> = if r.chance(1, 3) { Some(r.below(5) as usize) } else { None };
+        // "a run of 3-6 wrong-source datagrams, then the genuine reply": the budget of three counts them
+        let src_run: Option<usize> = if prefix.is_none() && r.chance(1, 4) { Some(r.range(3, 6) as usize) } else { None };
+        let prefix = prefix.or(src_run);
         let n = match prefix {
             Some(k) => k + 1 + r.below(2) as usize,
             None => n,
         };
         for j in 0..n {
-            let mut d = match r.below(6) {
+            let mut d = match if src_run.is_some() { r.below(4) } else { r.below(6) } {
                 0..=2 => 0,
                 3 => r.range(1, 50),
                 4 => r.range(1, interval),
@@ -556,6 +572,7 @@ fn gen_udp(r: &mut Rng) -> UdpCase {
             at += d;
             mine.push(at);
             let kind = match prefix {
+                Some(k) if j < k && src_run.is_some() => *r.pick(&["wrong-ip", "wrong-port", "wrong-port", "wrong-ip-garbage"]),
                 Some(k) if j < k => *r.pick(&["wrong-ip", "wrong-port", "wrong-id", "wrong-name", "wrong-type", "extra-question", "wrong-ip-garbage"]),
                 Some(k) if j == k => "genuine",
                 _ => if hostile && r.chance(2, 3) { *r.pick(&KINDS[3..]) } else { *r.pick(KINDS) },
@@ -775,19 +792,27 @@ fn gen_xchg(r: &mut Rng) -> String {
     format!("xchg {k} {flood} {} {}", b(r.chance(1, 2)), if script.is_empty() { "-".to_string() } else { script.join(",") })
 }
 
-/// every arrival sequence of length <= `len` over 11 fixed event kinds on one transmission, for one
-/// request, with and without case randomisation (small-scope validation of the loop model)
+/// Small-scope validation of the loop model.  For one single-question request built in each of the
+/// four public ways x case randomisation on/off: every arrival sequence of length <= `len` over 11 fixed
+/// event kinds on one transmission; runs of 3-5 wrong-source datagrams before the genuine reply; and for
+/// requests with two and three questions (three ways to build them) every sequence of length <= 2 over
+/// 8 kinds of question sections.
 fn udp_enumerate(ctx: &mut Ctx, rec: &mut Recorder, len: usize) {
     let server: SocketAddr = "192.168.1.1:53".parse().unwrap();
     let q = Q { labels: vec![b"ExAmPlE".to_vec(), b"cOm".to_vec()], qtype: 1, qclass: 1 };
     let ql = Q { labels: vec![b"example".to_vec(), b"com".to_vec()], qtype: 1, qclass: 1 };
     let other = Q { labels: vec![b"evil".to_vec(), b"com".to_vec()], qtype: 1, qclass: 1 };
+    let q2 = Q { labels: vec![b"SeConD".to_vec(), b"oRg".to_vec()], qtype: 28, qclass: 1 };
+    let q2l = Q { labels: vec![b"second".to_vec(), b"org".to_vec()], qtype: 28, qclass: 1 };
+    let q3 = Q { labels: vec![b"tHiRd".to_vec()], qtype: 16, qclass: 1 };
     let d = |src: SocketAddr, id: u16, resp: bool, qs: Vec<Q>| Ev::D { delay: 0, src, parses: true, resp, id, qs, raw: None };
     let mapped = SocketAddr::new(IpAddr::V6(Ipv4Addr::new(192, 168, 1, 1).to_ipv6_mapped()), 53);
+    let wrong_ip: SocketAddr = "192.168.1.2:53".parse().unwrap();
+    let wrong_port: SocketAddr = "192.168.1.1:54".parse().unwrap();
     let kinds: Vec<Ev> = vec![
         d(server, 4660, true, vec![q.clone()]),
-        d("192.168.1.2:53".parse().unwrap(), 4660, true, vec![q.clone()]),
-        d("192.168.1.1:54".parse().unwrap(), 4660, true, vec![q.clone()]),
+        d(wrong_ip, 4660, true, vec![q.clone()]),
+        d(wrong_port, 4660, true, vec![q.clone()]),
         d(mapped, 4660, true, vec![q.clone()]),
         d(server, 4661, true, vec![q.clone()]),
         d(server, 4660, true, vec![other.clone()]),
@@ -797,34 +822,73 @@ fn udp_enumerate(ctx: &mut Ctx, rec: &mut Recorder, len: usize) {
         d(server, 4660, false, vec![q.clone()]),
         Ev::E { delay: 0 },
     ];
-    for case_rand in [false, true] {
-        for l in 0..=len {
-            for code in 0..kinds.len().pow(l as u32) {
-                let mut c = code;
-                let mut sc = vec![];
-                for _ in 0..l {
-                    sc.push(kinds[c % kinds.len()].clone());
-                    c /= kinds.len();
+    let base = |case_rand: bool, ctor: char, qs: Vec<Q>, sc: Vec<Ev>| UdpCase {
+        timeout: 5010,
+        retry_interval: 1000,
+        floor: 1000,
+        max_retries: 1,
+        server,
+        id: 4660,
+        case_rand,
+        ctor,
+        qs,
+        scripts: vec![sc],
+    };
+    for ctor in ['n', 'o', 'm', 'f'] {
+        for case_rand in [false, true] {
+            for l in 0..=len {
+                for code in 0..kinds.len().pow(l as u32) {
+                    let mut c = code;
+                    let mut sc = vec![];
+                    for _ in 0..l {
+                        sc.push(kinds[c % kinds.len()].clone());
+                        c /= kinds.len();
+                    }
+                    exec(ctx, &udp::case_line(&base(case_rand, ctor, vec![q.clone()], sc)), rec);
                 }
-                let case = UdpCase {
-                    timeout: 5010,
-                    retry_interval: 1000,
-                    floor: 1000,
-                    max_retries: 1,
-                    server,
-                    id: 4660,
-                    case_rand,
-                    qs: vec![q.clone()],
-                    scripts: vec![sc],
-                };
-                exec(ctx, &udp::case_line(&case), rec);
+            }
+            // the budget of three counts wrong-source datagrams: runs of 3..=5 of them, then the reply
+            for l in 3..=5usize {
+                for code in 0..(1usize << l) {
+                    let mut sc: Vec<Ev> = (0..l).map(|i| d(if code >> i & 1 == 1 { wrong_port } else { wrong_ip }, 4660, true, vec![q.clone()])).collect();
+                    sc.push(d(server, 4660, true, vec![q.clone()]));
+                    exec(ctx, &udp::case_line(&base(case_rand, ctor, vec![q.clone()], sc)), rec);
+                }
+            }
+        }
+    }
+    // several questions
+    for asked in [vec![q.clone(), q2.clone()], vec![q.clone(), q2.clone(), q3.clone()]] {
+        let sections: Vec<Vec<Q>> = vec![
+            asked.clone(),
+            vec![q.clone()],
+            vec![q2.clone(), q.clone()],
+            vec![q.clone(), q2l.clone()],
+            vec![ql.clone()],
+            vec![q2l.clone(), ql.clone()],
+            vec![q.clone(), other.clone()],
+            vec![],
+        ];
+        for ctor in ['n', 'o', 'm'] {
+            for case_rand in [false, true] {
+                for l in 1..=2usize {
+                    for code in 0..sections.len().pow(l as u32) {
+                        let mut c = code;
+                        let mut sc = vec![];
+                        for _ in 0..l {
+                            sc.push(d(server, 4660, true, sections[c % sections.len()].clone()));
+                            c /= sections.len();
+                        }
+                        exec(ctx, &udp::case_line(&base(case_rand, ctor, asked.clone(), sc)), rec);
+                    }
+                }
             }
         }
     }
 }
 
 pub fn run(o: &Opts, rec: &mut Recorder) {
-    rec.rule = "UDP lines: scripted arrival lists (genuine reply + forged datagrams of 17 kinds: wrong ip/port/id/name/type/class, extra/duplicate/missing question, case flip, garbage, truncation, QR=0, recv error, v4-mapped alias) per transmission, with delays, with and without case randomisation; a case is non-trivial when a non-matching datagram was examined or a reply was accepted after at least one other datagram; distinct by case line. Multiplexer blocks (begin…end): k concurrent requests on a scripted stream, responses in any order / duplicated / never / unknown id / undecodable / QR=0, cancels, timeouts in virtual time, close, shutdown, floods of 99-250 frames, stalled writer; `xchg` lines (no model side): k requests through the real DnsExchange + background task + multiplexer run by a wake-driven executor, responses permuted/duplicated/missing after floods of 0-250 foreign frames; a block is non-trivial when at least two requests were in flight together and a response reached a caller; distinct by block serial".into();
+    rec.rule = "UDP lines: requests obtained in each public way (DnsRequest::new, new+with_original_query, From<Message>+options_mut, from_query) with 0-3 questions; scripted arrival lists (genuine reply + forged datagrams of 17 kinds: wrong ip/port/id/name/type/class, extra/duplicate/missing question, case flip, garbage, truncation, QR=0, recv error, v4-mapped alias) per transmission, with delays, with and without case randomisation; a case is non-trivial when a non-matching datagram was examined or a reply was accepted after at least one other datagram; distinct by case line. Multiplexer blocks (begin…end): k concurrent requests on a scripted stream, responses in any order / duplicated / never / unknown id / undecodable / QR=0, cancels, timeouts in virtual time, close, shutdown, floods of 99-250 frames, stalled writer; `xchg` lines (no model side): k requests through the real DnsExchange + background task + multiplexer run by a wake-driven executor, responses permuted/duplicated/missing after floods of 0-250 foreign frames; a block is non-trivial when at least two requests were in flight together and a response reached a caller; distinct by block serial".into();
     let mut ctx = Ctx::default();
     for l in o.pre_lines.clone() {
         exec(&mut ctx, &l, rec);
